@@ -111,7 +111,7 @@ structure MState where
 
 def liveNode (st : MState) (x : Int) : Bool := decide (0 ≤ x) && st.live.getD x.toNat false
 
-partial def parseCells (st : MState) (per size : Nat) : Nat → List String → List (List Int) →
+partial def parseCells (raw : Bool) (st : MState) (per size : Nat) : Nat → List String → List (List Int) →
     Option (List (List Int) × List String)
   | 0, ws, acc => some (acc.reverse, ws)
   | n + 1, ws, acc =>
@@ -122,31 +122,31 @@ partial def parseCells (st : MState) (per size : Nat) : Nat → List String → 
       if !xs.all inI32 then none
       else if !(xs.take per).all (liveNode st) then none
       else
-        let c := (xs.take per).map (fun x => st.o2n.getD x.toNat (-1)) ++ xs.drop per
-        parseCells st per size n (ws.drop size) (c :: acc)
+        let c := (xs.take per).map (fun x => if raw then x else st.o2n.getD x.toNat (-1)) ++ xs.drop per
+        parseCells raw st per size n (ws.drop size) (c :: acc)
 
 def kinds : List (String × Nat × Nat) :=
   [("edg", 2, 3), ("tri", 3, 4), ("qua", 4, 5), ("tet", 4, 4), ("pyr", 5, 5), ("pri", 6, 6), ("hex", 8, 8)]
 
-def parseKinds (st : MState) : List (String × Nat × Nat) → List String → Option (List (List (List Int)) × List String)
+def parseKinds (raw : Bool) (st : MState) : List (String × Nat × Nat) → List String → Option (List (List (List Int)) × List String)
   | [], ws => some ([], ws)
   | (name, per, size) :: ks, nm :: nc :: ws =>
     if nm != name || ws.length > 65536 then none else
     match int? nc with
     | some nc =>
       if nc < 0 then none else
-      match parseCells st per size nc.toNat ws [] with
+      match parseCells raw st per size nc.toNat ws [] with
       | some (cs, ws) =>
-        match parseKinds st ks ws with
+        match parseKinds raw st ks ws with
         | some (css, ws) => some (cs :: css, ws)
         | none => none
       | none => none
     | none => none
   | _, _ => none
 
-/-- `twod T n NS slots… edg N … hex N …` → the mesh as the writer sees it (vertices compacted); also: were there
-    removed slots -/
-def parseMesh (ws : List String) : Option (TMesh × Bool) :=
+/-- `twod T n NS slots… edg N … hex N …` → the mesh as the writer sees it (vertices compacted; `raw`: the cells keep
+    their slot numbers, which is what ref_export_msh writes); also: were there removed slots -/
+def parseMesh (raw : Bool) (ws : List String) : Option (TMesh × Bool) :=
   match ws with
   | "twod" :: t :: "n" :: ns :: rest =>
     match int? t, int? ns with
@@ -157,7 +157,7 @@ def parseMesh (ws : List String) : Option (TMesh × Bool) :=
       | some (slots, rest) =>
         let live := slots.map Option.isSome
         let st : MState := { live := live.toArray, o2n := o2nOf live }
-        match parseKinds st kinds rest with
+        match parseKinds raw st kinds rest with
         | some (css, []) =>
           some ({ twod := t == 1, nodes := slots.filterMap id, edg := css.getD 0 [], tri := css.getD 1 [],
                   qua := css.getD 2 [], tet := css.getD 3 [], pyr := css.getD 4 [], pri := css.getD 5 [],
@@ -179,7 +179,7 @@ def opExp (roundtrip : Bool) (ws : List String) : String :=
   match ws with
   | ext :: rest =>
     if !exts.contains ext then "bad-op" else
-    match parseMesh rest with
+    match parseMesh (ext == "msh") rest with
     | none => "bad-op"
     | some (m, _) =>
       match encodeExt ext m with
@@ -187,6 +187,17 @@ def opExp (roundtrip : Bool) (ws : List String) : String :=
       | some ts =>
         if roundtrip then decodeExt ext (.text ts)
         else "ok |" ++ String.join (ts.map fmtTok)
+  | _ => "bad-op"
+
+/-- `hazard_exp`: ref_export_su2 forms `max_faceid - min_faceid + 1` from `INT_MIN - INT_MAX` when the mesh has no
+    marker element -/
+def opHazardExp (ws : List String) : String :=
+  match ws with
+  | ext :: rest =>
+    if !exts.contains ext then "bad-op" else
+    match parseMesh (ext == "msh") rest with
+    | none => "bad-op"
+    | some (m, _) => if ext == "su2" && (su2Ids m).isEmpty then "hazard" else "clean"
   | _ => "bad-op"
 
 /-! ### readers -/
@@ -207,6 +218,39 @@ def opImp (robust : Bool) (ws : List String) : String :=
       | _, _ => if robust then "returned" else decodeExt ext f
   | _ => "bad-op"
 
+/-- `hazard_imp` / `hazard`: does the model predict that the C does not come back cleanly?  `translate`: an accepted
+    vertex index far outside every array (the exporters index their renumbering tables with it) counts too -/
+def opHazard (translate : Bool) (ws : List String) : String :=
+  let (hdr, fl) := splitBar ws
+  match hdr with
+  | [ext] =>
+    if !exts.contains ext then "bad-op" else
+    match file? fl with
+    | none => "bad-op"
+    | some f =>
+      let far (m : TMesh) : Bool :=
+        let big (per : Nat) (cs : List (List Int)) : Bool := cs.any fun c => (c.take per).any fun x => decide (1000000 ≤ x)
+        big 2 m.edg || big 3 m.tri || big 4 m.qua || big 4 m.tet || big 5 m.pyr || big 6 m.pri || big 8 m.hex
+      let r : Option Bool := match ext, f with
+        | "ugrid", .text ts => some (match decodeUgridTxt ts with
+            | .ok m => translate && far m | .error e => e == .st .undefined || e == .st .diverge || e == .bloat)
+        | "r8.ugrid", .bin bs => some (match decodeR8 BFix.current bs with
+            | .ok m => translate && far m | .error e => e == .undefined || e == .diverge)
+        | "r8.ugrid", _ => none
+        | _, .text ts =>
+          let d : Option (R TMesh) := match ext with
+            | "tri" => some (decodeTri Fix.current ts) | "surf" => some (decodeSurf Fix.current ts)
+            | "fgrid" => some (decodeFgrid Fix.current ts) | "su2" => some (decodeSu2 Fix.current ts)
+            | "msh" => some (decodeMsh Fix.current ts) | "grid" => some (decodeGrid Fix.current ts) | _ => none
+          d.map fun d => match d with
+            | .ok m => translate && (far m || (ext == "su2" && (su2Ids m).isEmpty)) | .error e => e == .st .undefined || e == .st .diverge || e == .bloat
+        | _, _ => none
+      match r with
+      | none => "bad-op"
+      | some true => "hazard"
+      | some false => "clean"
+  | _ => "bad-op"
+
 def fmtRow (acc : String) (r : List UInt64) : String := r.foldl (fun a v => a ++ " " ++ fmtBits v) acc
 
 def saneExt (s : String) : Bool :=
@@ -220,7 +264,7 @@ def opScalar (ws : List String) : String :=
     | some N, some t, some f =>
       if !saneExt ext || N > 100000 || t > 1 || !isIntTok n || !isIntTok twod then "bad-op" else
       let ranks := [List.range N]
-      let show2 (r : Except Status (Int × List (List Refine.Model.Sol.Row))) : String :=
+      let show2 (r : B (Int × List (List Refine.Model.Sol.Row))) : String :=
         match r with
         | .error e => e.name
         | .ok (ldim, arrs) => (arrs.headD []).foldl fmtRow ("ok " ++ toString ldim)
@@ -234,6 +278,11 @@ def opScalar (ws : List String) : String :=
       | _, _ => "unmodelled"
     | _, _, _ => "bad-op"
   | _ => "bad-op"
+
+def opHazardScalar (ws : List String) : String :=
+  let r := opScalar ws
+  if r == "bad-op" || r == "unmodelled" then r
+  else if r == "ub" || r == "hang" || r == "bloat" then "hazard" else "clean"
 
 def fmtDict (d : List (Int × Int)) : String :=
   d.foldl (fun a e => a ++ " " ++ toString e.1 ++ " " ++ toString e.2) ("ok " ++ toString d.length)
@@ -283,6 +332,10 @@ def step (_ : Unit) (line : String) : Unit × String :=
     | "exp" :: ws => opExp false ws
     | "rt" :: ws => opExp true ws
     | "scalar" :: ws => opScalar ws
+    | "hazard_imp" :: ws => opHazard false ws
+    | "hazard" :: ws => opHazard true ws
+    | "hazard_scalar" :: ws => opHazardScalar ws
+    | "hazard_exp" :: ws => opHazardExp ws
     | "mapbc" :: ws => opMapbc ws
     | "mapbc_token" :: ws => opMapbc ws
     | "rd_scalar" :: npS :: rest =>
